@@ -114,6 +114,9 @@ LabReject(n, k, cli) ==
 \* unrelated large ICMP traffic (1 400-byte echo requests and replies) crosses the tracer while it runs: same result
 LabNoise(v, n, cli) ==
     [Lab(v, n, "closed", {}, 1, 1, cli) EXCEPT !.id = @ \o "/bigping", !.label = @ \o "/large_unrelated_icmp"] @@ [noise |-> "bigping", reject |-> 0]
+\* padded minimum-size frames whose IPv4 total length is 0 keep arriving on the tracer's interface while it runs: skipped, same result
+LabTso0(v, n, cli) ==
+    [Lab(v, n, "closed", {}, 1, 1, cli) EXCEPT !.id = @ \o "/tso0", !.label = @ \o "/padded_frames_with_total_length_0"] @@ [noise |-> "tso0", reject |-> 0]
 \* a multi-homed tracer: the answers come back over another interface than the one the probes left through
 LabAsym(v, n, cli) ==
     \* (router 1 answers from the address of the interface its answer leaves through: the second link's 10.99.0.2)
@@ -132,7 +135,7 @@ LabRenumber(v, n) ==
 LabEchoWrap(n, base) ==
     [Lab(<<"icmp", "">>, n, "closed", {}, 1, 1, FALSE) EXCEPT !.id = @ \o "/echo_id_after_" \o ToString(base), !.label = @ \o "/echo_id_wraps_to_0",
                                                           !.req = [@ EXCEPT !.e2e = 0] @@ [echo_base |-> base]] @@ [noise |-> "", reject |-> 0]
-MoreC13 == { LabEchoWrap(2, 65535), LabEchoWrap(2, 131071), LabEchoWrap(2, 65534) } \cup { LabRenumber(v, 2) : v \in {<<"icmp", "">>, <<"udp", "">>, <<"tcp", "syn">>} } \cup { LabAsym(v, 2, c) : v \in {<<"icmp", "">>, <<"udp", "">>, <<"tcp", "syn">>}, c \in BOOLEAN }
+MoreC13 == { LabTso0(v, 2, c) : v \in {<<"icmp", "">>, <<"udp", "">>}, c \in BOOLEAN } \cup { LabEchoWrap(2, 65535), LabEchoWrap(2, 131071), LabEchoWrap(2, 65534) } \cup { LabRenumber(v, 2) : v \in {<<"icmp", "">>, <<"udp", "">>, <<"tcp", "syn">>} } \cup { LabAsym(v, 2, c) : v \in {<<"icmp", "">>, <<"udp", "">>, <<"tcp", "syn">>}, c \in BOOLEAN }
            \cup (IF IOEnv.VT_TIER = "quick" THEN {} ELSE { LabRepeat(<<"tcp", "syn">>, 1, 40) })
            \cup { LabReject(n, k, c) : n \in {2, MaxN}, k \in {1, 2}, c \in BOOLEAN } \cup { LabNoise(v, 2, c) : v \in {<<"icmp", "">>, <<"udp", "">>, <<"tcp", "syn">>}, c \in BOOLEAN }
 
@@ -185,6 +188,8 @@ C15Lab == { LabSrv("udp", 2, 63), LabSrv("icmp", 1, 2) }
 Re(x, i) == [x EXCEPT !.id = "C12/lab/" \o ToString(i), !.label = "real_capture_path/" \o @]
 \* C02 on the real kernel: what only real sockets show - identifiers the kernel rewrites, answers entering on another interface
 C02Lab == { [x EXCEPT !.id = "C02/lab/" \o @] : x \in { LabEchoWrap(2, 65535), LabEchoWrap(1, 131071), LabAsym(<<"udp", "">>, 2, FALSE), LabAsym(<<"icmp", "">>, 2, FALSE) } }
+\* C09 on the real capture path: what the capture handle hands the parser (padding, offload conventions) is below the simulated wire
+C09Lab == { [x EXCEPT !.id = "C09/lab/" \o @] : x \in { LabTso0(<<"icmp", "">>, 2, FALSE), LabTso0(<<"udp", "">>, 1, FALSE), LabNoise(<<"icmp", "">>, 2, FALSE) } }
 C12Lab == { Re(Lab6("icmp", 1, {}, FALSE), 1), Re(Lab6("udp", 2, {}, FALSE), 2), Re(Lab(<<"udp", "">>, 2, "closed", {}, 1, 1, FALSE), 3),
             Re(Lab(<<"icmp", "">>, 1, "closed", {}, 1, 1, FALSE), 4), Re(Lab(<<"tcp", "syn">>, 2, "open", {}, 1, 1, FALSE), 5),
             Re(Lab(<<"tcp", "sack">>, 2, "open", {}, 1, 1, FALSE), 6),
@@ -192,7 +197,7 @@ C12Lab == { Re(Lab6("icmp", 1, {}, FALSE), 1), Re(Lab6("udp", 2, {}, FALSE), 2),
             Re(LabAsym(<<"tcp", "syn">>, 2, FALSE), 7), Re(LabAsym(<<"udp", "">>, 2, FALSE), 8), Re(LabAsym(<<"tcp", "sack">>, 2, FALSE), 9) }
 
 LabGen == IF "VT_GEN" \in DOMAIN IOEnv THEN IOEnv.VT_GEN ELSE "C13"
-LabCases == IF LabGen = "C08" THEN C08Lab ELSE IF LabGen = "C02" THEN C02Lab ELSE IF LabGen = "C12" THEN C12Lab ELSE IF LabGen = "C15" THEN C15Lab ELSE IF LabGen = "C17" THEN C17Lab ELSE All \cup Extra \cup CliAll \cup MoreC13
+LabCases == IF LabGen = "C08" THEN C08Lab ELSE IF LabGen = "C09" THEN C09Lab ELSE IF LabGen = "C02" THEN C02Lab ELSE IF LabGen = "C12" THEN C12Lab ELSE IF LabGen = "C15" THEN C15Lab ELSE IF LabGen = "C17" THEN C17Lab ELSE All \cup Extra \cup CliAll \cup MoreC13
 ASSUME ndJsonSerialize(IOEnv.VT_OUT, SetToSeq(LabCases)) /\ PrintT(<<"GEN", LabGen, Cardinality(LabCases), Cardinality(LabCases)>>)
 VARIABLE x
 Init == x = 0
